@@ -94,6 +94,19 @@ Proof.
   rewrite Z.mod_small by lia. lia.
 Qed.
 
+(* the call cannot panic for a uint8 p (the divisor uint64(p)+1 is not 0): HashMatchAny evaluates it as the
+   size hint of a map *)
+Lemma sizeHint_ok f : f_p f < 2 ^ 64 - 1 -> exists z, Kernels3.gcs_Filter_sizeHint (to_gen f) = Ok z.
+Proof.
+  intros Hp. unfold Kernels3.gcs_Filter_sizeHint, to_gen.
+  cbn [Kernels3.gcs_Filter_filterData Kernels3.gcs_Filter_p Kernels3.gcs_Filter_n].
+  assert (E2 : (f_p f mod 2 ^ 64 + 1) mod 2 ^ 64 = f_p f + 1).
+  { rewrite (N.mod_small (f_p f)) by lia. apply N.mod_small. lia. }
+  rewrite E2. unfold Go.divN. destruct (N.eqb_spec (f_p f + 1) 0) as [E|_]; [lia|]. cbn [rbind].
+  match goal with |- context [if ?c then _ else _] => destruct c end; eexists; reflexivity.
+Qed.
+
+
 (* ---------- PBytes ---------- *)
 Lemma upd_head {A} (x y : A) l : Go.upd (x :: l) 0%Z y = Ok (y :: l).
 Proof.
@@ -224,6 +237,7 @@ Print Assumptions Bytes_gen.
 Print Assumptions N_tie.
 Print Assumptions P_tie.
 Print Assumptions sizeHint_tie.
+Print Assumptions sizeHint_ok.
 Print Assumptions PBytes_tie.
 Print Assumptions FromBytes_tie.
 Print Assumptions NBytes_tie.
